@@ -502,6 +502,9 @@ where
     ) where
         R_: Registry,
     {
+        // The removed component is kept until the row has been removed from every column, so that
+        // a panicking destructor can not leave the row partially removed.
+        let mut removed = None;
         if
         // SAFETY: `identifier_iter` is guaranteed by the safety contract of this method to
         // return a value for every component within the registry.
@@ -522,7 +525,7 @@ where
                     )
                 },
             );
-            v.swap_remove(index);
+            removed = Some(v.swap_remove(index));
 
             components =
                 // SAFETY: `components` is guaranteed to have the same number of values as there
@@ -548,6 +551,8 @@ where
         // than `(C, R)`, and since `identifier_iter` has had one bit consumed, it still has the
         // same number of bits remaining as `R` has components remaining.
         unsafe { R::remove_component_row(index, components, length, identifier_iter) };
+
+        drop(removed);
     }
 
     unsafe fn pop_component_row<R_>(
